@@ -182,7 +182,7 @@ class Ctx:
                         ('LogRx.lean', tolean.log_rx)):
             try:
                 self.regen({rel: fn(self._tables)})
-            except (Unsupported, KeyError) as e:
+            except (Unsupported, KeyError, ValueError, IndexError) as e:
                 self.regen_errors[rel] = '%s: %s' % (type(e).__name__, e)
 
     def generated_needed(self):
